@@ -83,3 +83,29 @@ fix_div_signed_lt1 (mpz_ptr rem, mpz_srcptr dividend, mpz_srcptr divisor)
   PTR (rem)[0] = mpn_mod_1 (PTR (dividend), nn, PTR (divisor)[0]);
   SIZ (rem) = PTR (rem)[0] != 0;
 }
+
+/* negative: the divisor is tested through a local pointer that names it */
+void
+fix_div_alias_good (mpz_ptr rem, mpz_srcptr dividend, mpz_srcptr divisor)
+{
+  const mpz_srcptr dd = divisor;
+  mp_size_t nn = ABSIZ (dividend);
+  if (SIZ (dd) == 0)
+    DIVIDE_BY_ZERO;
+  MPZ_REALLOC (rem, 1);
+  PTR (rem)[0] = nn == 0 ? 0 : mpn_mod_1 (PTR (dividend), nn, PTR (dd)[0]);
+  SIZ (rem) = PTR (rem)[0] != 0;
+}
+
+/* positive: the local pointer names the dividend - the divisor is never tested */
+void
+fix_div_alias_bad (mpz_ptr rem, mpz_srcptr dividend, mpz_srcptr divisor)
+{
+  const mpz_srcptr dd = dividend;
+  mp_size_t nn = ABSIZ (dividend);
+  if (SIZ (dd) == 0)
+    DIVIDE_BY_ZERO;
+  MPZ_REALLOC (rem, 1);
+  PTR (rem)[0] = mpn_mod_1 (PTR (dividend), nn, PTR (divisor)[0]);
+  SIZ (rem) = PTR (rem)[0] != 0;
+}
